@@ -519,6 +519,7 @@ def _make_cache(col, rule="C07.R5"):
         raise AnalysisError("Table._make_cache: return is not a 3-tuple (cannot decide)")
     okd = okc = ok0 = False
     facts = []
+    occ_terms = []
     for r in rets:
         dct, cnt, names = r.value[1]
         if dct[:1] == ("acc",) and dct[1] == "dict":
@@ -527,17 +528,28 @@ def _make_cache(col, rule="C07.R5"):
                     okd = True
                     for cc in S.instances(c[2][1][1], 16):
                         m = S.match(cc, ("op", "+", ("call", ("attr", S.ANY, "get"), (el, S.V("d")), ()), S.V("k")))
+                        m0 = S.match(cc, ("call", ("attr", S.ANY, "get"), (el, S.V("d")), ()))
                         if m is not None and m["d"][:1] == ("const",) and m["k"][:1] == ("const",):
                             try:
                                 ok0 = int(m["d"][1]) + int(m["k"][1]) == 0
                             except ValueError:
                                 ok0 = False
                             facts.append(S.show(cc)[-40:])
+                            occ_terms.append(cc)
+                        elif m0 is not None and m0["d"][:1] == ("const",):
+                            # the number of earlier occurrences, read straight from the running count
+                            ok0 = m0["d"] == ("const", "0")
+                            facts.append(S.show(cc)[-40:])
+                            occ_terms.append(cc)
                         elif cc == ("const", "0"):
                             ok0 = True
         if cnt[:1] == ("acc",) and cnt[1] == "dict":
             for c in cnt[2]:
                 if c[0] == "kv" and c[2][:1] == ("key",) and S.match(c[3], ("op", "+", ("val", S.ANY), ("const", "1"))) is not None and not c[1]:
+                    okc = True
+                # ... or kept as a running count in the scan itself: count[name] = <this row's occurrence number> + 1
+                if c[0] == "kv" and c[2] == el and not c[1] and occ_terms and S.match(
+                        c[3], ("op", "+", ("call", ("attr", S.ANY, "get"), (el, ("const", "0")), ()), ("const", "1"))) is not None:
                     okc = True
             if S.is_call_of(cnt, ("attr", ("glob", "dict"), "fromkeys")):
                 okc = False
